@@ -306,13 +306,18 @@ def build_replay(kname, harness_file, defs):
                 raise Broken('replay shim build failed for %s:\n%s' % (kname, r['err'][-3000:]))
         h = hashlib.sha1(repr(key).encode()).hexdigest()[:10]
         exe = os.path.join(bd, 'replay_' + h)
-        cmd = ['clang-14', '-O0', '-g', '-w', '-DREPLAY', '-DIRC_NATIVE', '-fsanitize=address', '-I' + os.path.join(bd, 'protos'), '-I' + ENGINE, '-I' + kd]
+        cc = ['clang-14', '-O0', '-g', '-w', '-DREPLAY', '-DIRC_NATIVE', '-fsanitize=address', '-I' + os.path.join(bd, 'protos'), '-I' + ENGINE, '-I' + kd]
         for k, v in (defs or {}).items():
-            cmd += ['-D%s=%s' % (k, v)]
-        cmd += [os.path.join(kd, harness_file), os.path.join(ENGINE, 'vreplay_rt.c'), shim_o, '-fsanitize=undefined', '-lstdc++', '-lm', '-o', exe]
-        r = sh(cmd, timeout=900)
+            cc += ['-D%s=%s' % (k, v)]
+        ho = os.path.join(bd, 'h_' + h + '.o')
+        ro = os.path.join(bd, 'rt_' + h + '.o')
+        for src, obj in ((os.path.join(kd, harness_file), ho), (os.path.join(ENGINE, 'vreplay_rt.c'), ro)):
+            r = sh(cc + ['-c', src, '-o', obj], timeout=900)
+            if r['rc'] != 0:
+                raise Broken('replay build failed for %s:\n%s' % (kname, r['err'][-3000:]))
+        r = sh(['clang++-14', '-fsanitize=address,undefined', ho, ro, shim_o, '-lm', '-o', exe], timeout=900)
         if r['rc'] != 0:
-            raise Broken('replay build failed for %s:\n%s' % (kname, r['err'][-3000:]))
+            raise Broken('replay link failed for %s:\n%s' % (kname, r['err'][-3000:]))
         _replay_built[key] = exe
         return exe
 
@@ -388,7 +393,12 @@ def check_property(pid, tier, seed, only_kernel=None, only_job=None, keep=False,
         out = {}
         for var in sorted(need[kn]):
             out[var] = build_kernel(kn, specs[kn], var)
-        st = selftest(kn, specs[kn], out.get('plain') or build_kernel(kn, specs[kn], 'plain'), seed)
+        try:
+            st = selftest(kn, specs[kn], out.get('plain') or build_kernel(kn, specs[kn], 'plain'), seed)
+        except Broken as e:
+            # a mismatch can be caused by undefined behaviour in the (changed) code under test, e.g. a read of uninitialised bytes: keep going -
+            # a reproduced counterexample outranks it; without one the run is reported as BROKEN, never as success
+            st = dict(ran=True, failed=str(e)[:1500])
         return kn, out, st
     with ThreadPoolExecutor(max_workers=8) as ex:
         for kn, out, st in ex.map(bld, sorted(need)):
@@ -400,6 +410,7 @@ def check_property(pid, tier, seed, only_kernel=None, only_job=None, keep=False,
         j['exclude_findings'] = [f['id'] for f in open_findings if f.get('kernel') == j['kernel'] and j['id'] in f.get('jobs', [j['id']])]
 
     results = []
+    selftest_failures = ['%s: %s' % (kn, st['failed']) for kn, st in selftests.items() if st.get('failed')]
 
     def runj(j):
         info = infos[j['kernel']]['safety' if j.get('safety') else 'plain']
@@ -532,6 +543,7 @@ def check_property(pid, tier, seed, only_kernel=None, only_job=None, keep=False,
         % (pid, tier, len(results), decided_jobs, obligations, discharged, len(undecided), len(broken), len(violations), time.time() - t0))
     if violations:
         return 1
+    broken = selftest_failures + broken
     if broken:
         for b in broken:
             print('BROKEN: ' + b, flush=True)
